@@ -243,6 +243,15 @@ func listFiles(root, ext string) []string {
 func runC11(res *result) {
 	thorough := *tier == "thorough"
 	atoms := idl.AllAtoms(false)
+	{
+		var gen []idl.Atom
+		for _, a := range atoms {
+			if a.Class != "parse-only" {
+				gen = append(gen, a)
+			}
+		}
+		atoms = gen
+	}
 	if !thorough {
 		// quick: every atom class, thinned deterministically to keep the check short: all decl and
 		// ident atoms in type positions, every third field atom
